@@ -504,6 +504,7 @@ def evaluate(ctx, binp, cases, tag):
     rc, res, raw = vlib.run_json(binp, gin, timeout=1800)
     if res is None:
         raise vlib.GoBuildError("./cmd/c15 (run)", raw[-3000:])
+    ctx.loader_facts = res.get("facts")
     by_id = {}
     terms = []
     for c, o in zip(cases, res["outs"]):
@@ -618,6 +619,11 @@ def run(ctx):
         cases += gen_cases(ctx, n, start_id=len(cases))
     by_id, res = evaluate(ctx, binp, cases, "main")
     M, V, KB, KC, nt = res["M"], res["V"], set(res["KB"]), set(res["KC"]), res["NT"]
+    want = {"file": "priority:0", "file2": "priority:0", "raw": "unordered", "args": "unordered"}
+    facts_ok = ctx.loader_facts == want
+    ctx.oblige("facts: ordering class of the loader kinds read back from the real types = the model's lclass "
+               "(FileLoader priority/Order 0, Raw/Args unordered)", facts_ok, json.dumps(ctx.loader_facts))
+    static_ok = static_ok and facts_ok
     ctx.log("cases=%d nontrivial=%d mismatches=%d violations=%d (KF-C15b class %d, KF-C15c class %d)" % (
         len(cases), nt, len(M), len(V), len(KB), len(KC)))
     for i in V:
